@@ -211,6 +211,28 @@ impl Universe {
         }
     }
 
+    /// Value with a run-unique id `v` (concurrent runs: a read identifies its transaction).
+    pub fn val_unique(&self, c: usize, _k: usize, v: i64) -> Vec<u8> {
+        let sizes: &[usize] = if self.small { &[4, 9, 40, 200, 1000] } else { &[4, 9, 40, 200, 5000, 40_000] };
+        let size = sizes[(v as usize + c) % sizes.len()];
+        let mut rng = SmallRng::seed_from_u64(self.seed ^ ((c as u64) << 40) ^ ((v as u64) << 8) ^ 0x7777);
+        let mut out = fill(&mut rng, size, v % 3 == 0);
+        out[0..4].copy_from_slice(&(v as u32).to_le_bytes());
+        out
+    }
+
+    pub fn val_unique_id(&self, c: usize, k: usize, bytes: &[u8]) -> i64 {
+        if bytes.len() < 4 {
+            return -1
+        }
+        let v = u32::from_le_bytes(bytes[0..4].try_into().unwrap()) as i64;
+        if v > 0 && self.val_unique(c, k, v) == bytes {
+            v
+        } else {
+            -1
+        }
+    }
+
     /// Abstract value id of the bytes read from key `k` (−1: bytes nobody wrote there).
     pub fn val_id(&self, c: usize, k: usize, bytes: &[u8]) -> i64 {
         if let Some(l) = self.rev[c].get(bytes) {
@@ -401,16 +423,10 @@ pub fn copy_dir(src: &Path, dst: &Path) -> std::io::Result<()> {
 // ---------------------------------------------------------------------------
 // event recorder
 
-#[derive(Clone, Debug)]
-pub struct Ev {
-    pub seq: u64,
-    pub tid: u64,
-    pub name: String,
-    pub args: Vec<u64>,
-}
-
 thread_local! {
     static TID: std::cell::Cell<u64> = std::cell::Cell::new(0);
+    /// transaction the current thread is committing (joined with the CommitLin hook event)
+    pub static PENDING_TX: std::cell::RefCell<Option<J>> = std::cell::RefCell::new(None);
 }
 static NEXT_TID: std::sync::atomic::AtomicU64 = std::sync::atomic::AtomicU64::new(1);
 
@@ -423,10 +439,14 @@ pub fn tid() -> u64 {
     })
 }
 
-pub type Callback = Arc<dyn Fn(&str, &[u64]) + Send + Sync>;
+pub type Callback = Arc<dyn Fn(&str, &[u64], usize) + Send + Sync>;
 
+/// Records hook events (emitted by parity-db inside its critical sections) and client
+/// events of the harness in one totally ordered list.  The position in the list is the
+/// sequence number; it is assigned while holding the recorder mutex, i.e. still inside the
+/// critical section that made the reported change visible.
 pub struct Recorder {
-    pub events: Mutex<Vec<Ev>>,
+    pub events: Mutex<Vec<J>>,
     pub callback: Mutex<Option<Callback>>,
     pub enabled: std::sync::atomic::AtomicBool,
 }
@@ -440,30 +460,45 @@ impl Recorder {
         });
         let r2 = r.clone();
         parity_db::verif::set_sink(Some(Arc::new(move |name: &'static str, args: &[u64]| {
-            r2.push(name, args);
+            r2.hook(name, args);
         })));
         r
     }
     pub fn uninstall() {
         parity_db::verif::set_sink(None);
     }
-    /// Record an event; the sequence number is taken while holding the recorder mutex, so
-    /// it is consistent with every lock held by the caller.
-    pub fn push(&self, name: &str, args: &[u64]) {
+    fn hook(&self, name: &str, args: &[u64]) {
+        let mut pos = 0usize;
         if self.enabled.load(std::sync::atomic::Ordering::Relaxed) {
             let mut ev = self.events.lock().unwrap();
-            let seq = ev.len() as u64;
-            ev.push(Ev { seq, tid: tid(), name: name.to_string(), args: args.to_vec() });
+            if name == "CommitLin" {
+                let tx = PENDING_TX.with(|p| p.borrow_mut().take()).unwrap_or(J::Null);
+                ev.push(json!({"e": "Commit", "cid": args[0], "tx": tx, "t": tid()}));
+            } else {
+                ev.push(json!({"e": name, "a": args, "t": tid()}));
+            }
+            pos = ev.len();
         }
         let cb = self.callback.lock().unwrap().clone();
         if let Some(cb) = cb {
-            cb(name, args);
+            cb(name, args, pos);
         }
+    }
+    pub fn push(&self, j: J) {
+        if self.enabled.load(std::sync::atomic::Ordering::Relaxed) {
+            self.events.lock().unwrap().push(j);
+        }
+    }
+    pub fn set_enabled(&self, on: bool) {
+        self.enabled.store(on, std::sync::atomic::Ordering::SeqCst);
     }
     pub fn set_callback(&self, cb: Option<Callback>) {
         *self.callback.lock().unwrap() = cb;
     }
-    pub fn take(&self) -> Vec<Ev> {
+    pub fn truncate(&self, n: usize) {
+        self.events.lock().unwrap().truncate(n);
+    }
+    pub fn take(&self) -> Vec<J> {
         std::mem::take(&mut *self.events.lock().unwrap())
     }
     pub fn len(&self) -> usize {
